@@ -166,6 +166,9 @@ func (i *interpreter) rtPanic(msg string) targetPanic {
 func (i *interpreter) panicString(p targetPanic) string {
 	if it, ok := p.v.(iface); ok {
 		if s, ok := it.v.(string); ok {
+			if p.where != "" {
+				return s + " [at " + p.where + "]"
+			}
 			return s
 		}
 		if it.t != nil {
@@ -372,7 +375,9 @@ func (i *interpreter) setCell(addr *value, v value) {
 
 func (fr *frame) nilCheck(p *value) *value {
 	if p == nil {
-		panic(fr.i.rtPanic("invalid memory address or nil pointer dereference"))
+		tp := fr.i.rtPanic("invalid memory address or nil pointer dereference")
+		tp.where = fr.site() + " in " + fr.stack()
+		panic(tp)
 	}
 	return p
 }
